@@ -24,6 +24,12 @@ theorem awaitingDropped_iff (s n : Nat) : awaitingDropped s n = true ↔ n < s :
 theorem reached_iff (s h : Nat) : handlerThresholdReached s h = true ↔ s + ANTI_REORG_DELAY - 1 ≤ h := by
   simp [handlerThresholdReached]
 
+theorem timerExpired_iff (h t : Nat) : timerExpired h t = true ↔ t ≤ h := by
+  simp [timerExpired]
+
+theorem timerExpired_false_iff (h t : Nat) : timerExpired h t = false ↔ h < t := by
+  simp [timerExpired]
+
 theorem reached_mono {s h h' : Nat} (hr : handlerThresholdReached s h = true) (hle : h ≤ h') :
     handlerThresholdReached s h' = true := by
   rw [reached_iff] at *; omega
@@ -915,7 +921,7 @@ theorem connect_bc {W : World} {st st' : St} {txs : List BTx} {bc : List Outpoin
       st' = bump W (st.chain.tip + 1) (mature (st.chain.tip + 1) st1) ∧
       bc = W.allOutpoints.filter fun X =>
         match (mature (st.chain.tip + 1) st1).claim X with
-        | some c => c.spentAt.isNone && ((st.claim X).isNone || decide (c.timer ≤ st.chain.tip + 1))
+        | some c => c.spentAt.isNone && ((st.claim X).isNone || timerExpired (st.chain.tip + 1) c.timer)
         | none => false := by
   simp only [connect] at hc
   cases ha : applyTxs W (st.chain.tip + 1) { st with chain := { st.chain with tip := st.chain.tip + 1 } } txs with
@@ -949,7 +955,7 @@ theorem connect_reissue {W : World} {st st' : St} {txs : List BTx} {bc : List Ou
     · constructor
       · cases hdue : due (st.chain.tip + 1) c' with
         | false =>
-          simp only [due, hs2, Option.isNone_none, Bool.true_and, decide_eq_false_iff_not] at hdue
+          simp only [due, hs2, Option.isNone_none, Bool.true_and, timerExpired_false_iff] at hdue
           omega
         | true =>
           -- a due claim is bumped, so it cannot be unchanged unless the new timer equals the old: use the bump definition
@@ -989,7 +995,7 @@ theorem connect_reissue {W : World} {st st' : St} {txs : List BTx} {bc : List Ou
     · refine List.mem_filter.2 ⟨hmem, ?_⟩
       simp only [hc2, hs2, Option.isNone_none, Bool.true_and, hnone, Bool.true_or]
     · have hnd : due (st.chain.tip + 1) c2 = false := by
-        simp only [due, hs2, Option.isNone_none, Bool.true_and, decide_eq_false_iff_not]; omega
+        simp only [due, hs2, Option.isNone_none, Bool.true_and, timerExpired_false_iff]; omega
       rcases hcase with rfl | ⟨hd, _, _⟩
       · omega
       · rw [hnd] at hd; cases hd
@@ -997,10 +1003,10 @@ theorem connect_reissue {W : World} {st st' : St} {txs : List BTx} {bc : List Ou
     rw [hc1] at hc1'
     cases hc1'
     have hdue : due (st.chain.tip + 1) c2 = true := by
-      simp only [due, hs2, Option.isNone_none, Bool.true_and, decide_eq_true_eq]; omega
+      simp only [due, hs2, Option.isNone_none, Bool.true_and, timerExpired_iff]; omega
     constructor
     · refine List.mem_filter.2 ⟨hmem, ?_⟩
-      simp only [hc2, hs2, Option.isNone_none, Bool.true_and, Bool.or_eq_true, decide_eq_true_eq]
+      simp only [hc2, hs2, Option.isNone_none, Bool.true_and, Bool.or_eq_true, timerExpired_iff]
       right; omega
     · exact htimer.2 hdue
 
